@@ -36,6 +36,11 @@ fn run(args: Args) {
     for i in 0..docs {
         // every family in turn; the (expensive) large family at most a few times per run
         let mut fam = FAMILIES[i % FAMILIES.len()];
+        if i == 1 {
+            fam = "usweep-u"; // every BMP scalar value as \uXXXX
+        } else if i == 14 {
+            fam = "usweep-lit"; // ... and literally
+        }
         if fam == "large" {
             nlarge += 1;
             if nlarge > maxlarge {
